@@ -425,4 +425,28 @@ def VIEvent.isSetter : VIEvent → Bool
   | .call _ _ _ => false
   | _ => true
 
+
+/-! ## `bellmanOperator(q)` (src/MDP/Utils.cpp): a fresh value function of `q.rows()` entries, then the in-place operator -/
+def bellmanOp (S A : Nat) (q : Mat) : VF := bellmanInplace A q ⟨mkVec S (fun _ => 0), mkNats S (fun _ => 0)⟩
+
+/-! ## the ONE `lp.row` buffer of LinearProgramming::operator(): filled with 1/S for the objective, then rewritten for every (s,a) -/
+
+/-- write `f i` at every index i < n of the buffer, in order (the `for s1` loop of the generic path; the dense assignment of the Eigen path) -/
+def writeTo : Nat → (Nat → Rat) → Vec → Vec
+  | 0, _, b => b
+  | n+1, f, b => (writeTo n f b).setIfInBounds n (f n)
+
+/-- one (s,a) pass over the persistent buffer: all S coefficients rewritten, then `lp.row[s] += 1.0` -/
+def lpRowPass (m : MDP) (s a : Nat) (buf : Vec) : Vec :=
+  let b := writeTo m.S (fun s1 => -m.γ * m.T s a s1) buf
+  b.setIfInBounds s (Vec.get b s + 1)
+
+/-- the whole constraint-building double loop (k = s·A + a) over the one buffer: final buffer and the rows pushed so far, in order -/
+def lpPushAll (m : MDP) : Nat → Vec → Vec × List Vec
+  | 0, buf => (buf, [])
+  | k+1, buf =>
+    let (b, rows) := lpPushAll m k buf
+    let b' := lpRowPass m (k / m.A) (k % m.A) b
+    (b', rows ++ [b'])
+
 end AITB.MDP
